@@ -653,7 +653,7 @@ fn main() {
     }
 
     let mut rng = Rng::new(cfg.seed);
-    let scale: usize = if cfg.thorough { 12 } else { 1 };
+    let scale: usize = if cfg.thorough { 60 } else { 5 };
 
     // ---- white-box corner cases
     let greys: Vec<Rgb> = (0..10u8).map(|i| [i * 16, i * 16, i * 16]).collect();
